@@ -31,8 +31,14 @@ func c12World(tp *Tape, env *Env) (*Plan, *Violation) {
 	g.ensureYieldingCycles(prog)
 	layout := genLayout(tp)
 	w := World{Readers: distribute(tp, prog, layout, 2)}
-	w.Host = HostSpec{Storer: []string{"rec", "mem"}[tp.Int(0, 1, "storer")], Probes: true, Seed: "s1", Handlers: cfg.Handlers}
-	if len(cfg.Handlers) > 0 {
+	hostHandlers := cfg.Handlers
+	if tp.Chance(20, "hoststop") {
+		// a host may register a command under any name, also "stop": <<stop>> still ends the dialogue and is never dispatched
+		hostHandlers = append(append([]HandlerSpec{}, hostHandlers...), HandlerSpec{Name: "stop", Shape: handlerShapes[tp.Int(0, len(handlerShapes)-1, "stopshape")]})
+		env.St.probe("host_registered_a_stop_command")
+	}
+	w.Host = HostSpec{Storer: []string{"rec", "mem"}[tp.Int(0, 1, "storer")], Probes: true, Seed: "s1", Handlers: hostHandlers}
+	if len(hostHandlers) > 0 {
 		w.Host.Scheds = []Sched{{Immediate: tp.Bool("immediate")}}
 	}
 	// raw choice arguments for the way to the end, then the post-end schedule
